@@ -220,7 +220,7 @@ def expected_edges(lst, labels):
             nxt = seq[k + 1][0] if contiguous and k + 1 < len(seq) else None
             nxt_code = nxt if nxt is not None and nxt.t == "I" else None
             src = (si, t.pos)
-            if t.kind in ("ord", "call", "jcc", "icall"):
+            if t.kind in ("ord", "call", "jcc", "icall", "syscall"):
                 if nxt_code is not None:
                     edges.add((si, t.pos, "ft", False, True,
                                ("pos", si, nxt_code.pos)))
@@ -238,6 +238,8 @@ def expected_edges(lst, labels):
                 edges.add((si, t.pos, "call", False, True, tgt))
                 calls.append((si, t, nxt_code.pos if nxt_code else None,
                               tgt))
+            elif t.kind == "syscall":
+                edges.add((si, t.pos, "syscall", False, False, ("anon",)))
             elif t.kind in ("ijmp", "icall"):
                 et = "branch" if t.kind == "ijmp" else "call"
                 if t.target is not None:
@@ -272,7 +274,8 @@ def expected_edges(lst, labels):
 
 
 ETYPE = {"ft": gtirb.Edge.Type.Fallthrough, "branch": gtirb.Edge.Type.Branch,
-         "call": gtirb.Edge.Type.Call, "return": gtirb.Edge.Type.Return}
+         "call": gtirb.Edge.Type.Call, "return": gtirb.Edge.Type.Return,
+         "syscall": gtirb.Edge.Type.Syscall}
 
 
 def build_cfg(case, lst, bu):
